@@ -44,11 +44,12 @@ Spawn(t) ==
      /\ hist' = Append(hist, [a |-> "spawn", t |-> t, u |-> u])
      /\ mon' = Observe(M!MonNext(mon, [ev |-> "spawn", t |-> t, u |-> u]), stack, base', started')
   /\ UNCHANGED <<stack, nctx>>
-\* start_component called by task t from inside a block: prepare()/start() see the caller's context as the parent of new contexts
+\* start_component called by task t from inside a block: prepare()/start() see the caller's context as the parent of new contexts,
+\* also of a context that is handed the component's own view of it explicitly (Context(current_context()))
 Comp(t) ==
   /\ t \in started /\ CurOf(t) # 0 /\ (hist = <<>> \/ hist[Len(hist)].a # "comp")
   /\ hist' = Append(hist, [a |-> "comp", t |-> t])
-  /\ mon' = Observe(M!MonNext(mon, [ev |-> "comp", t |-> t, prep |-> CurOf(t), start |-> CurOf(t), inner |-> CurOf(t), restored |-> TRUE]), stack, base, started)
+  /\ mon' = Observe(M!MonNext(mon, [ev |-> "comp", t |-> t, prep |-> CurOf(t), start |-> CurOf(t), inner |-> CurOf(t), given |-> CurOf(t), restored |-> TRUE]), stack, base, started)
   /\ UNCHANGED state
 Next == \/ \E t \in Tasks, p \in 0..MaxCtx : Enter(t, p)
         \/ \E t \in Tasks, how \in {"return", "exc", "cancel", "tdraise"} : Leave(t, how)
